@@ -86,7 +86,6 @@ func trunc(s string) string {
 var _ = token.NoPos
 var _ = sort.Strings
 
-
 // reachableNoGo: functions reachable from fns through call edges other than `go` statements,
 // not entering HTTP handler roots (they run on net/http's own goroutines).
 func reachableSync(c *report.Ctx, stopAtHTTP bool, fns ...*ssa.Function) map[*ssa.Function]bool {
@@ -124,13 +123,13 @@ func reachableSync(c *report.Ctx, stopAtHTTP bool, fns ...*ssa.Function) map[*ss
 	return seen
 }
 
-
 func init() {
 	register(&Prop{
 		Spec: report.Spec{
 			ID: "C07",
 			Explanation: "The failure modes named by the property are reachability and discipline facts of the whole program, decided over the VTA call graph and the SSA of every function: (1) every explicit process-terminating construct (panic, logrus Panic*/Fatal*, os.Exit) reachable from a background goroutine root (the go statements; HTTP handler goroutines are recovered by net/http and are not entered), and every unrecoverable one (Fatal/Exit) reachable from an HTTP handler, must be in a table whose entries carry a justification, the checkable ones being checked (exit channels created after every successful Exec with the same name, names embed the generation, generation bumped on every reset path, a failed invocation always carries a default error response, the environment is stored before it is used, the supervisor never reports event loss, the default-error send tolerates a vanished reservation); " +
 				"(2) no result of a failing call is used on its error path in any service-time function; (3) every blocking operation a running init/invoke handler can reach is a cancellable barrier wait or in a reasoned allow-list, a reset cancels the flows strictly before it waits for the handler mutex, the cancel fans out to every barrier and is re-armed by the reset; (4) shared maps and the registration service's fields are accessed under their mutex (directly or in every caller), the unlocked readers being listed with the reason they are safe; (5) no function releases a mutex by hand across a call that can reach an explicit panic. " +
+				"Added after the blind rounds: lock pairing on every path of every function (R-PAIR); no new wait under a lock and one critical section per call (tabled exceptions); the watchdog is independent of the server mutex; reply-sink guards; shutdown wait-group pairing. " +
 				"NOT decided: the time bound; 'at most one further invocation fails'; implicit panics other than the error-use pattern (index, nil map, closed channel).",
 			RuleText:    "one obligation per reachable (site) , per table justification, per blocking operation, per shared-map access, per manual lock region",
 			Assumptions: append([]string{"the VTA call graph over-approximates real calls (sites reachable only through imprecise dynamic dispatch are listed with that reason)", "net/http recovers panics of handler goroutines; log.Fatal/os.Exit are not recoverable"}, trusted...),
@@ -147,24 +146,24 @@ type siteJust struct {
 
 // Background roots may reach only these explicit termination sites.
 var bgSites = map[string]siteJust{
-	"L/core/statejson.InternalStateDescription.AsJSON/log.Panic/Failed to marshall internal states: %s": {"json.Marshal of a struct of strings, integers, slices and pointers to such cannot fail", "marshalable:L/core/statejson.InternalStateDescription"},
+	"L/core/statejson.InternalStateDescription.AsJSON/log.Panic/Failed to marshall internal states: %s":      {"json.Marshal of a struct of strings, integers, slices and pointers to such cannot fail", "marshalable:L/core/statejson.InternalStateDescription"},
 	"L/rapid.shutdownContext.createExitedChannel/log.Panic/Tried to create an exited channel for '%s' but o": {"process names embed the runtime domain generation, which is incremented at the top of every init and on every reset path, so a name is never created twice", "names-embed-generation"},
-	"L/rapid.shutdownContext.handleProcessExit/log.Panic/Unable to find an exitedChannel for '%s', it sho": {"an exit event can only concern a process for which Exec returned nil, and every nil Exec is followed by createExitedChannel with the same name (the window between the two is a schedule matter, not decided)", "exec-then-create-channel"},
-	"L/rapid.rapidContext.watchEvents/log.Panic/Lost %d events from supervisor": {"taken only for an event-loss event; the local supervisor never produces one (EventData.Size has no writer)", "no-event-loss"},
-	"L/rapidcore.Server.FastInvoke$1/log.Panic/default error response was nil for invoke failur": {"taken only if an invoke failure carries no default error response; handleInvokeError always stores a non-nil one", "failure-has-default-response"},
-	"L/rapidcore.Server.trySendDefaultErrorResponse/log.Panic/Failed to send default error response: %s": {"taken only for errors other than ErrResponseSent and ErrInvalidInvokeID (the reservation being legitimately gone); the remaining causes (no reply stream for the id FastInvoke itself attached; a failing Write of the in-memory response proxy) do not occur on the emulator path", "default-send-tolerates-gone-reservation"},
-	"L/rapidcore/env.Environment.AgentExecEnv/log.Fatal/credentials, customer and runtime API address mus": {"taken only before the init request's environment was stored; handleInit stores it before any process is started", "env-stored-before-use"},
+	"L/rapid.shutdownContext.handleProcessExit/log.Panic/Unable to find an exitedChannel for '%s', it sho":   {"an exit event can only concern a process for which Exec returned nil, and every nil Exec is followed by createExitedChannel with the same name (the window between the two is a schedule matter, not decided)", "exec-then-create-channel"},
+	"L/rapid.rapidContext.watchEvents/log.Panic/Lost %d events from supervisor":                              {"taken only for an event-loss event; the local supervisor never produces one (EventData.Size has no writer)", "no-event-loss"},
+	"L/rapidcore.Server.FastInvoke$1/log.Panic/default error response was nil for invoke failur":             {"taken only if an invoke failure carries no default error response; handleInvokeError always stores a non-nil one", "failure-has-default-response"},
+	"L/rapidcore.Server.trySendDefaultErrorResponse/log.Panic/Failed to send default error response: %s":     {"taken only for errors other than ErrResponseSent and ErrInvalidInvokeID (the reservation being legitimately gone); the remaining causes (no reply stream for the id FastInvoke itself attached; a failing Write of the in-memory response proxy) do not occur on the emulator path", "default-send-tolerates-gone-reservation"},
+	"L/rapidcore/env.Environment.AgentExecEnv/log.Fatal/credentials, customer and runtime API address mus":   {"taken only before the init request's environment was stored; handleInit stores it before any process is started", "env-stored-before-use"},
 	"L/rapidcore/env.Environment.RuntimeExecEnv/log.Fatal/credentials, customer and runtime API address mus": {"taken only before the init request's environment was stored; handleInit stores it before any process is started", "env-stored-before-use"},
-	"L/rapid.startRuntimeAPI/log.Panic/Runtime API Server failed to listen": {"taken only if the Runtime API address cannot be bound when the emulator starts, before any process exists; not influenced by runtime or extension behaviour", ""},
-	"M/cmd/aws-lambda-rie.main$1/os.Exit/": {"the shutdown function main registers for SIGINT/SIGTERM (exit 0 by design); appears under other roots only because every context.CancelFunc call resolves to it in the type-based call graph", ""},
+	"L/rapid.startRuntimeAPI/log.Panic/Runtime API Server failed to listen":                                  {"taken only if the Runtime API address cannot be bound when the emulator starts, before any process exists; not influenced by runtime or extension behaviour", ""},
+	"M/cmd/aws-lambda-rie.main$1/os.Exit/":                                                                   {"the shutdown function main registers for SIGINT/SIGTERM (exit 0 by design); appears under other roots only because every context.CancelFunc call resolves to it in the type-based call graph", ""},
 }
 
 // HTTP handler goroutines may reach only these unrecoverable (Fatal/Exit) sites.
 var httpFatalSites = map[string]siteJust{
-	"L/rapi/handler.pingHandler.ServeHTTP/log.Fatal/Failed to write 'pong' response": {"taken only if writing the 4-byte body fails; net/http buffers it in a 4 KiB writer, HEAD is not routed to this handler, so Write cannot fail before the handler returns", ""},
-	"L/rapidcore/env.Environment.AgentExecEnv/log.Fatal/credentials, customer and runtime API address mus": {"see background table", "env-stored-before-use"},
+	"L/rapi/handler.pingHandler.ServeHTTP/log.Fatal/Failed to write 'pong' response":                         {"taken only if writing the 4-byte body fails; net/http buffers it in a 4 KiB writer, HEAD is not routed to this handler, so Write cannot fail before the handler returns", ""},
+	"L/rapidcore/env.Environment.AgentExecEnv/log.Fatal/credentials, customer and runtime API address mus":   {"see background table", "env-stored-before-use"},
 	"L/rapidcore/env.Environment.RuntimeExecEnv/log.Fatal/credentials, customer and runtime API address mus": {"see background table", "env-stored-before-use"},
-	"M/cmd/aws-lambda-rie.main$1/os.Exit/": {"CancelFunc imprecision, see background table", ""},
+	"M/cmd/aws-lambda-rie.main$1/os.Exit/":                                                                   {"CancelFunc imprecision, see background table", ""},
 }
 
 func siteKeyNoMsg(p panicSite) string { return an.FuncName(p.Fn) + "/" + p.Kind + "/" + p.Msg }
@@ -331,7 +330,9 @@ func checkJustification(c *report.Ctx, name string) {
 			if g == nil {
 				continue
 			}
-			n := len(an.Calls(g, func(s string) bool { return strings.HasPrefix(s, "L/rapidcore/env.Environment.StoreEnvironmentVariablesFromInit") }))
+			n := len(an.Calls(g, func(s string) bool {
+				return strings.HasPrefix(s, "L/rapidcore/env.Environment.StoreEnvironmentVariablesFromInit")
+			}))
 			c.Check("R-JUST", "env-stored-before-use/"+nm, "accepting the init request stores its environment", n == 1, fpos(g), 1, "%d store calls", n)
 		}
 		if s := fn(c, rapidcP, "(SandboxContext).Init"); s != nil {
@@ -552,12 +553,12 @@ func checkFailureHasBody(c *report.Ctx) {
 
 // blocking operations reachable from a running init/invoke handler
 var blockingAllowed = map[string]string{
-	"L/core.gateImpl.AwaitGateCondition/call sync.Cond.Wait": "the barrier wait itself: released by CancelWithError, which CancelFlows fans out to every gate (checked below)",
-	"L/rapid.handleInit/send initSuccessResponse":            "served by Server.awaitInitCompletion, started right after the init handler (checked below)",
-	"L/rapid.handleInit/recv Ack":                            "acknowledged by Server.awaitInitCompletion",
-	"L/rapid.handleInitError/send initFailureResponse":       "served by Server.awaitInitCompletion",
-	"L/rapid.handleInitError/recv Ack":                       "acknowledged by Server.awaitInitCompletion",
-	"L/rapidcore.Server.Reset/recv ResetDoneChan":            "not on a real path of the handlers (call-graph over-approximation through the interop interfaces); the wait is fed by Reset's own goroutine",
+	"L/core.gateImpl.AwaitGateCondition/call sync.Cond.Wait":                 "the barrier wait itself: released by CancelWithError, which CancelFlows fans out to every gate (checked below)",
+	"L/rapid.handleInit/send initSuccessResponse":                            "served by Server.awaitInitCompletion, started right after the init handler (checked below)",
+	"L/rapid.handleInit/recv Ack":                                            "acknowledged by Server.awaitInitCompletion",
+	"L/rapid.handleInitError/send initFailureResponse":                       "served by Server.awaitInitCompletion",
+	"L/rapid.handleInitError/recv Ack":                                       "acknowledged by Server.awaitInitCompletion",
+	"L/rapidcore.Server.Reset/recv ResetDoneChan":                            "not on a real path of the handlers (call-graph over-approximation through the interop interfaces); the wait is fed by Reset's own goroutine",
 	"L/core/bandwidthlimiter.Throttler.bandwidthLimitingWrite/recv produced": "not on a real path of the handlers (io.Writer over-approximation); fed by the throttler's ticker goroutine",
 }
 
